@@ -194,7 +194,7 @@ def ref_feed(samples):
     if idx and idx[-1] != n - 1 and idx[-1] != 0:
         s = s[:idx[-1] + 1]
     x1 = [0] + s
-    flush1 = (len(x1) - 1) in [i for i, _v in _interior_reversals(x1 + x1)]
+    flush1 = (len(x1) - 1) in [i for i, _v in _interior_reversals(x1 + s)]
     t1, tail = _ref_new_turns([], x1, flush1)
     t2, _ = _ref_new_turns(tail, s, True)
     return t1, t2
